@@ -1062,7 +1062,11 @@ impl Matcher {
     async fn cmd_loop(mut self, mut state_conn: CrConn, mut tripwire: Tripwire) {
         const PROCESS_CHANGES_THRESHOLD: usize = 1000;
         const PROCESSING_WARN_THRESHOLD: Duration = Duration::from_secs(5);
+        #[cfg(not(feature = "verif"))]
         const PROCESS_BUFFER_DEADLINE: Duration = Duration::from_millis(600);
+        #[cfg(feature = "verif")]
+        #[allow(non_snake_case)]
+        let PROCESS_BUFFER_DEADLINE: Duration = crate::verif::buffer_deadline();
 
         info!(sub_id = %self.id, "Starting loop to run the subscription");
         {
@@ -1162,6 +1166,8 @@ impl Matcher {
                         debug!(sub_id = %self.id, "processed {buf_count} changes for subscription in {elapsed:?}");
                     }
                     buf_count = 0;
+                    #[cfg(feature = "verif")]
+                    crate::verif::batch_done();
 
                     // reset the deadline
                     process_changes_deadline
